@@ -206,6 +206,9 @@ def load_function(path, qual):
     tree = ast.parse(src)
     node = tree
     parts = [p for p in qual.split(".") if p != "<locals>"]
+    lam = None
+    if parts and parts[-1].startswith("<op:"):
+        lam = parts.pop()[4:-1]          # <op:SYMBOL/ARITY[/FIXITY][#N]/KEYWORD>  e.g. <op:+/2/to_terms>, <op:~/2#1/to_terms>
     for p in parts:
         found = None
         body = node.body if hasattr(node, "body") else []
@@ -222,12 +225,62 @@ def load_function(path, qual):
         if found is None:
             raise LookupError(f"{path}::{qual}: `{p}` not found in the current working tree")
         node = found
+    if lam is not None:
+        spec, kwname = lam.rsplit("/", 1)
+        nth = 0
+        if "#" in spec:
+            spec, nth_s = spec.split("#")
+            nth = int(nth_s)
+        bits = spec.split("/")
+        sym, arity = bits[0], int(bits[1])
+        sym = {"colon": ":", "star": "*", "slash": "/", "tilde": "~", "bar": "|", "dot": ".", "pow": "**", "hat": "^"}.get(sym, sym)
+        fixity = bits[2] if len(bits) > 2 else None
+        hits = []
+        for call in ast.walk(node):
+            if isinstance(call, ast.Call) and isinstance(call.func, ast.Name) and call.func.id == "Operator" and call.args \
+                    and isinstance(call.args[0], ast.Constant) and call.args[0].value == sym:
+                kws = {k.arg: k.value for k in call.keywords}
+                if isinstance(kws.get("arity"), ast.Constant) and kws["arity"].value == arity:
+                    fx = kws.get("fixity")
+                    fxv = fx.value if isinstance(fx, ast.Constant) else None
+                    if fixity is None and fxv not in (None, "infix") and arity == 1:
+                        pass
+                    if fixity is not None and fxv != fixity:
+                        continue
+                    if fixity is None and fxv is not None:
+                        continue
+                    hits.append(kws)
+        if len(hits) <= nth or kwname not in hits[nth]:
+            raise LookupError(f"{path}::{qual}: Operator({sym!r}, arity={arity}) #{nth} with keyword {kwname} not found")
+        val = hits[nth][kwname]
+        if isinstance(val, ast.Name):
+            # keyword refers to a nested def of the same enclosing function
+            for child in ast.walk(node):
+                if isinstance(child, ast.FunctionDef) and child.name == val.id:
+                    node = child
+                    break
+            else:
+                raise LookupError(f"{path}::{qual}: nested function {val.id} not found")
+        elif isinstance(val, ast.Lambda):
+            fd = ast.FunctionDef(name=f"op_{kwname}", args=val.args, body=[ast.Return(value=val.body)], decorator_list=[], returns=None, type_comment=None)
+            try:
+                fd.type_params = []
+            except Exception:
+                pass
+            ast.copy_location(fd, val)
+            ast.copy_location(fd.body[0], val)
+            ast.fix_missing_locations(fd)
+            node = fd
+        else:
+            raise LookupError(f"{path}::{qual}: keyword {kwname} is neither a lambda nor a name")
     h = hashlib.sha256(ast.dump(node).encode()).hexdigest()[:16]
     return node, h
 
 
 # --------------------------------------------------------------------------- verification driver
 def make_param(eng, st, name, spec):
+    if isinstance(spec, tuple) and spec and spec[0] == "pytuple":
+        return tuple(make_param(eng, st, f"{name}.{i}", t) for i, t in enumerate(spec[1:]))
     if isinstance(spec, dict):
         cls = spec.get("__class__", name)
         attrs = {}
